@@ -1,5 +1,5 @@
 SCHK = "verifharness/checks/storagechk"
-WIP["C09"] = dict(
+CHECKS["C09"] = dict(
     level="exploration", engine="E1",
     technique="stateful property-based testing on the full-chain simulator: generated contract histories with a per-transaction ledger invariant (growth of recorded liabilities <= growth of the contract wallet + newly accrued reward)",
     level_text="Generated storage histories (allocations incl. free-storage grants, markers, challenges, updates, blobber replacement incl. killed blobbers, kills, stake lock / unlock / collect, read markers, block rewards, closes) run on the real chain; after every applied transaction the sum of everything the storage contract records as owed (delegate stakes, unpaid rewards, write, challenge and read pools) may have grown by at most what the contract's wallet gained plus the block reward newly accrued by blobber_block_rewards.",
